@@ -15,3 +15,100 @@ def at_step(run, c):
 def leading_ats(s, d):
     """d is the number of leading '@' of s (unique d with: s[:d] all '@', s[d] is not '@')."""
     return 0 <= d and d <= len(s) and at_run(s[:d]) == 1 and (d == len(s) or s[d] != "@")
+
+
+# ---- NPath grammar ---------------------------------------------------------------------------
+#   path   := seg ('.' seg)*
+#   seg    := bare | quoted
+#   bare   := [A-Za-z_][A-Za-z0-9_']*
+#   quoted := '"' ( c | '\"' | '\\' | '\n' | '\r' | '\t' | '\'c )* '"'      (c: any char but " and \)
+# Everything else is malformed: empty path or segment, text before or after a quoted segment,
+# unterminated quote, dangling escape, bare segment that is not an identifier.
+import re as _re
+
+import z3 as _z3
+
+from pvc import types as _ty
+from pvc.spec import z3spec
+from pvc.values import VBool, VRec, VStr
+
+_ty.declare_record("_NPathSegment", [("name", "str"), ("quoted", "bool")])
+
+NP_B = 0  # in a bare segment (or at the start of a segment)
+NP_Q = 1  # inside quotes
+NP_QE = 2  # inside quotes, after a backslash
+NP_A = 3  # after the closing quote: only '.' or the end may follow
+NP_FAIL = 4
+
+_BARE = _re.compile(r"[A-Za-z_][A-Za-z0-9_']*")
+
+
+def _bare_re():
+    az = _z3.Union(_z3.Range("A", "Z"), _z3.Range("a", "z"), _z3.Re("_"))
+    rest = _z3.Union(az, _z3.Range("0", "9"), _z3.Re("'"))
+    return _z3.Concat(az, _z3.Star(rest))
+
+
+@z3spec(lambda ev, s: VBool(_z3.InRe(s.t, _bare_re())))
+def is_bare_name(s):
+    """s consists only of letters, digits, _ and ' and does not start with a digit or '."""
+    return _BARE.fullmatch(s) is not None
+
+
+@z3spec(lambda ev, name, quoted: VRec("_NPathSegment", {"name": name, "quoted": quoted}))
+def mkseg(name, quoted):
+    return (name, quoted)
+
+
+@fold(init=(0, "", []), sorts=("int", "str", "seq:_NPathSegment"),
+      views={"np_mode": 0, "np_cur": 1, "np_segs": 2})
+def np_step(mode, cur, segs, c):
+    if mode == NP_FAIL:
+        return (NP_FAIL, cur, segs)
+    if mode == NP_QE:
+        if c == "n":
+            return (NP_Q, cur + "\n", segs)
+        if c == "r":
+            return (NP_Q, cur + "\r", segs)
+        if c == "t":
+            return (NP_Q, cur + "\t", segs)
+        if c == '"' or c == "\\":
+            return (NP_Q, cur + c, segs)
+        return (NP_Q, cur + "\\" + c, segs)
+    if mode == NP_Q:
+        if c == "\\":
+            return (NP_QE, cur, segs)
+        if c == '"':
+            return (NP_A, cur, segs)
+        return (NP_Q, cur + c, segs)
+    if mode == NP_A:
+        if c == ".":
+            return (NP_B, "", segs + [mkseg(cur, True)])
+        return (NP_FAIL, cur, segs)
+    # NP_B
+    if c == ".":
+        if is_bare_name(cur):
+            return (NP_B, "", segs + [mkseg(cur, False)])
+        return (NP_FAIL, cur, segs)
+    if c == '"':
+        if cur == "":
+            return (NP_Q, "", segs)
+        return (NP_FAIL, cur, segs)
+    return (NP_B, cur + c, segs)
+
+
+@pure
+def np_accepts(p):
+    """p is a well-formed NPath."""
+    return (np_mode(p) == NP_B and is_bare_name(np_cur(p))) or np_mode(p) == NP_A
+
+
+@pure
+def np_result(p):
+    """The segments of a well-formed NPath p."""
+    return np_segs(p) + [mkseg(np_cur(p), np_mode(p) == NP_A)]
+
+
+from pvc.spec import absorbing  # noqa: E402
+
+absorbing(np_step, "mode == NP_FAIL")
